@@ -283,3 +283,32 @@ def rec_unequal_when_one_component_differs(a, b):
     if a._end_point is not None and b._end_point is not None:
         if instant(a._end_point) != instant(b._end_point):
             assert a != b
+
+
+# ---------------------------------------------------------------- dump fields (C08, C17)
+def dump_fields_recompose(p):
+    y = p.year
+    assert int(p.expanded_year_digits) * 10000 + p.century * 100 + p.year_of_century == abs(y)
+    assert 0 <= p.century and p.century <= 99 and 0 <= p.year_of_century \
+        and p.year_of_century <= 99
+    if y < 0:
+        assert p.year_sign == "-"
+    else:
+        assert p.year_sign == "+"
+    s = -1 if p.time_zone_sign == "-" else 1
+    assert s * p.time_zone_hour_abs == p.time_zone.hours
+    assert s * p.time_zone_minute_abs == p.time_zone.minutes
+    assert 0 <= p.time_zone_hour_abs and p.time_zone_hour_abs <= 99
+    assert 0 <= p.time_zone_minute_abs and p.time_zone_minute_abs <= 59
+    assert p.year_of_decade == abs(y) % 10
+    assert p.decade_of_century * 10 + p.year_of_decade == p.year_of_century
+
+
+def strftime_year_is_civil_year(p):
+    # what strftime formats: the calendar form of p (dumpers.TimePointDumper.strftime)
+    q = p.to_calendar_date()
+    assert q.get_is_calendar_date()
+    assert dby(q.year) < date_abs(p) and date_abs(p) <= dby(q.year + 1)
+    assert cal_abs(q.year, q.month_of_year, q.day_of_month) == date_abs(p)
+    assert q.day_of_year == date_abs(p) - dby(q.year)
+    assert instant(q) == instant(p) and same_zone(q, p)
